@@ -77,6 +77,9 @@ def gen(rng, name):
             d[n] = default if r < 0.4 else (rng.choice([0.0, 1.0]) if r < 0.55 else abs(S.dy(rng)) + 0.5)
         if m > 0 and rng.random() < 0.3:
             d = dict(pv[0])
+        elif m > 0 and rng.random() < 0.4:
+            # near-coincidence with member 0 (relative 1e-6 .. 1e-5): must not be merged
+            d = {n: (v * (1.0 + rng.choice(S.NEAR_REL)) if v != 0 else 1e-9) for n, v in pv[0].items()}
         pv.append(d)
         cin.append({n: {"times": list(ts), "values": [S.dy(rng) for _ in ts]} for n in spec["inputs"]})
     return dict(kind="modelica", modelica=name, E=E, ts=ts, theta=rng.choice(S.THETAS),
